@@ -397,9 +397,18 @@ func c18GreaseSigLine(name string, seed string) string {
 	return "— " + name + " " + base64.StdEncoding.EncodeToString(h[:20]) + "\n"
 }
 
-func c18LogV3JSON() []byte {
+// c18FinalTree is the final_tree_head cmd/sunlight records in log.v3.json once
+// the log is read-only (it takes it from the sequencer's in-memory tree, i.e.
+// from the lock store, not from the published checkpoint).
+type c18FinalTree struct {
+	Size int64
+	Root verifmc.Hash
+	Time int64
+}
+
+func c18LogV3JSON(final *c18FinalTree) []byte {
 	id := sha256.Sum256(c18PKIX)
-	j, err := json.MarshalIndent(map[string]any{
+	m := map[string]any{
 		"description":    c18Name,
 		"friendly_name":  "c18",
 		"submission_url": "https://c18.example/",
@@ -409,11 +418,56 @@ func c18LogV3JSON() []byte {
 		"mmd":            60,
 		"log_spec":       "static-ct-api",
 		"status":         "active",
-	}, "", "    ")
+	}
+	if final != nil {
+		m["status"] = "readonly"
+		m["status_timestamp"] = "2026-01-08T00:00:00Z"
+		m["final_tree_head"] = map[string]any{
+			"sha256_root_hash": final.Root[:],
+			"tree_size":        final.Size,
+			"timestamp":        final.Time,
+		}
+	}
+	j, err := json.MarshalIndent(m, "", "    ")
 	if err != nil {
 		panic(err)
 	}
 	return j
+}
+
+// c18FinalFor picks the final tree head of a case: "eq" the published tree,
+// "lock" the newest tree (what the lock store holds; ahead of the published one
+// in the lock-ahead variants), "behind" the visited size before the published
+// one. ok=false: no such tree for this history.
+func c18FinalFor(tr *c18Tree, published int64, mode string) (*c18FinalTree, bool) {
+	size := int64(-1)
+	switch mode {
+	case "":
+		return nil, true
+	case "eq":
+		size = published
+	case "lock":
+		size = tr.n
+	case "behind":
+		for _, s := range tr.hist {
+			if s < published {
+				size = s
+			}
+		}
+		if size < 0 && published > 0 {
+			size = 0
+		}
+	}
+	if size < 0 {
+		return nil, false
+	}
+	round := 0
+	for i, s := range tr.hist {
+		if s <= size {
+			round = i + 1
+		}
+	}
+	return &c18FinalTree{Size: size, Root: tr.root(size), Time: c18RoundTime(round)}, true
 }
 
 func c18OriginHash(origin string) string {
